@@ -1,3 +1,81 @@
-From Serif Require Import Base.PyVal Model.Heap.
-Theorem C16_placeholder : True. Proof. exact I. Qed.
-Print Assumptions C16_placeholder.
+(* Props/C16.v — fingerprints track content: never stale, and they notice every change. *)
+From Coq Require Import List Bool ZArith.
+From Serif Require Import Base.PyVal Model.Heap Proofs.HeapBase Proofs.HeapReg Proofs.HeapFrame
+                          Proofs.Fingerprint Proofs.HeapFp.
+Import ListNotations.
+
+(* Memo coherence in every reachable state: a cached vector fingerprint always equals the
+   fingerprint of the current contents (every write path resets it). *)
+Theorem C16_memo_never_stale : forall os, Inv_fp (run init os).
+Proof. exact (fun os => reachable_Inv_fp os init Inv_fp_init). Qed.
+Print Assumptions C16_memo_never_stale.
+
+Theorem C16_memo_invariant_preserved : forall s o s' out, step s o = (s', out) -> Inv_fp s -> Inv_fp s'.
+Proof. exact step_preserves_Inv_fp. Qed.
+Print Assumptions C16_memo_invariant_preserved.
+
+(* fingerprint() is a function of current contents only, for vectors and for tables, whether or
+   not it had been called (and cached) earlier ... *)
+Theorem C16_fingerprint_is_function_of_contents : forall s h s' x,
+  Inv_fp s -> step s (OFp h) = (s', OkFp x) -> fp_of s h = Some x.
+Proof. exact fingerprint_is_function_of_contents. Qed.
+Print Assumptions C16_fingerprint_is_function_of_contents.
+
+(* ... so it equals the fingerprint of ANY object with the same contents in ANY state — in
+   particular of a freshly built vector or table. *)
+Theorem C16_same_contents_same_fingerprint : forall s1 h1 s2 h2,
+  contents s1 h1 = contents s2 h2 -> is_table s1 h1 = is_table s2 h2 -> contents s1 h1 <> None ->
+  fp_of s1 h1 = fp_of s2 h2.
+Proof. exact same_contents_same_fingerprint. Qed.
+Print Assumptions C16_same_contents_same_fingerprint.
+
+(* read-only operations never change it *)
+Theorem C16_readonly_keeps_fingerprint : forall s o s' out h,
+  Inv_own s -> step s o = (s', out) -> touched s o = [] -> collected o = [] ->
+  aget (heap s) h <> None -> fp_of s' h = fp_of s h.
+Proof. exact readonly_keeps_fingerprint. Qed.
+Print Assumptions C16_readonly_keeps_fingerprint.
+
+(* Sensitivity (the part that is true): changing one element to a value whose hash differs
+   MODULO 2^61-1 changes the fingerprint of the vector ... *)
+Theorem C16_write_changes_vector_fingerprint : forall s h i b sid' s' v,
+  getv s h = Some v -> step s (OSetV h [(i, b)] sid') = (s', Ok) ->
+  ((hash_elem (nth i (vals v) SNone) - hash_elem b) mod FP_P <> 0)%Z ->
+  fp_of s' h <> fp_of s h.
+Proof. exact write_changes_vector_fingerprint. Qed.
+Print Assumptions C16_write_changes_vector_fingerprint.
+
+(* ... and of every table containing it, *)
+Theorem C16_write_changes_table_fingerprint : forall s h i b sid' s' v ht t c1 c2,
+  getv s h = Some v -> gett s ht = Some t -> cols t = c1 ++ h :: c2 -> ~ In h c1 -> ~ In h c2 ->
+  step s (OSetV h [(i, b)] sid') = (s', Ok) ->
+  ((hash_elem (nth i (vals v) SNone) - hash_elem b) mod FP_P <> 0)%Z ->
+  fp_of s' ht <> fp_of s ht.
+Proof. exact write_changes_table_fingerprint. Qed.
+Print Assumptions C16_write_changes_table_fingerprint.
+
+(* ... and element order matters. *)
+Theorem C16_element_order_matters : forall l1 a b l2,
+  ((hash_elem a - hash_elem b) mod FP_P <> 0)%Z ->
+  fp_vals (l1 ++ a :: b :: l2) <> fp_vals (l1 ++ b :: a :: l2).
+Proof. exact fp_vals_order_matters. Qed.
+Print Assumptions C16_element_order_matters.
+
+(* The property as literally stated — every change between values that hash() tells apart is
+   noticed — is FALSE of the faithful model (and of the code: known finding KF1): the
+   fingerprint only sees element hashes modulo 2^61-1. *)
+Definition C16_sensitivity_statement : Prop :=
+  forall l1 a b l2, hash_elem a <> hash_elem b -> fp_vals (l1 ++ a :: l2) <> fp_vals (l1 ++ b :: l2).
+Theorem C16_sensitivity_refuted :
+  exists a b, hash_elem a <> hash_elem b /\ fp_vals [SInt 5; a; SInt 7] = fp_vals [SInt 5; b; SInt 7].
+Proof. exact fp_hash_distinct_refuted. Qed.
+Print Assumptions C16_sensitivity_refuted.
+
+Example C16_example :
+  let os := [ ONewTab 3 [CLit [SInt 1; SInt 2] (Some 1); CLit [SNone; SInt 4] (Some 2)] [1; 2] [5; 6] 7;
+              OFp 3; OSetV 1 [(0, SInt 99)] 8 ] in
+  let s := run init os in
+  (* the table memo is stale-proof: the next call recombines the columns *)
+  snd (step s (OFp 3)) = OkFp (fp_hashes [fp_vals [SInt 99; SInt 2]; fp_vals [SNone; SInt 4]]) /\
+  option_map vfp (getv s 1) = Some None /\ option_map vfp (getv s 2) = Some (Some (fp_vals [SNone; SInt 4])).
+Proof. vm_compute. repeat split. Qed.
